@@ -154,6 +154,19 @@ def json_two_mutations(m1: int, m2: int, a: int, b: int, x1: int, y1: int) -> bo
     return (not _valid(d)) or P(d)
 
 
+def json_valid_axis_lengths(nrows: int, ncols: int, a: int, b: int, x1: int, y1: int) -> bool:
+    """
+    require: 0 <= nrows < 3 and 0 <= ncols < 3
+    """
+    # the number of ids per axis varies too, down to none (a coordinate can never lie inside an empty axis)
+    d = base_doc()
+    d['rows'] = d['rows'][:nrows]
+    d['columns'] = d['columns'][:ncols]
+    d['shape'] = [a, b]
+    d['data'] = [[x1, y1, 1.5]]
+    return (not _valid(d)) or P(d)
+
+
 def wellformed_is_accepted(a: int, b: int, x1: int, y1: int, x2: int, y2: int) -> bool:
     """
     require: 0 <= a and 0 <= b
@@ -189,6 +202,10 @@ def signature(function, fixed, argtxt):
 def shards(tier):
     assert len(MUTATIONS) == 48, len(MUTATIONS)
     out = [('wellformed_is_accepted', {})]
+    for nr in range(3):
+        for nc in range(3):
+            if (nr, nc) != (2, 2):
+                out.append(('json_valid_axis_lengths', {'nrows': nr, 'ncols': nc}))
     for m in range(len(MUTATIONS)):
         out.append(('json_valid_implies_wellformed', {'mut': m}))
     if tier != 'quick':
